@@ -1065,6 +1065,9 @@ unaryexpr(struct scope *s)
 			error(&tok.loc, "operand of unary '+' operator must have arithmetic type");
 		if (e->type->prop & PROPINT)
 			e = exprpromote(e);
+		/* the result is a value, not the operand itself (an lvalue or a bit-field) */
+		if (e->lvalue || e->kind == EXPRBITFIELD)
+			e = mkexpr(EXPRCAST, e->type, e);
 		break;
 	case TSUB:
 		next();
